@@ -52,6 +52,14 @@ def check_case(ctx, case, record=True):
     has_foreign = any(nd.get("foreign") for nd in spec["nodes"])
     if has_foreign:
         cfg["max_errors"] = None
+    # modified-time queries that fail on their first attempt(s) while the caller asked for retries: the dry run is
+    # given the same retry policy as the real run and must get through the stale check just the same
+    flaky = case.get("flaky_mt")
+    if flaky:
+        cfg["retry"] = flaky["retry"]
+        ent_calls = [i for i in sorted(refmodel.entries(spec)) if spec["nodes"][i]["k"] != "lit"]
+        for w_ in (a, b):
+            w_.flaky_ops = {("mt", i): flaky["fails"] for i in ent_calls[:: flaky["step"]]}
     # world A: dry run
     a.reset_log()
     tkind = case.get("transform")
@@ -94,6 +102,7 @@ def check_case(ctx, case, record=True):
             except BaseException as e:
                 val_a, err_a = None, e
     obs_a = refmodel.observed(a)
+    a.flaky_ops = {}
     # world B: the real run
     b.reset_log()
     xkw = {"transform_physical": b.transform(tkind)} if tkind else {}
@@ -141,6 +150,9 @@ def run_shard(ctx):
            st.sampled_from([None, None, None, "copy", "copy_add", "copy_wrap", "inplace_add", "inplace_wrap"]))
     def test(case, tkind):
         case = dict(case, transform=tkind)
+        if case["ops"][-1]["cfg"].get("rseed", 0) % 5 == 0:
+            r = case["ops"][-1]["cfg"]["rseed"]
+            case["flaky_mt"] = {"retry": 2 + r % 2, "fails": 1, "step": 1 + (r // 5) % 2}
         runner.guarded(ctx, check_case, case)
 
     runner.drive(ctx, test, ctx.n(8000, 80000))
